@@ -860,6 +860,15 @@ func (eng *Engine) verify(c *Contract, prop string) (rep *FuncReport, err error)
 	} else {
 		ex.assumption("frame (modifies clause) of " + c.Func + " is not checked")
 	}
+	if len(ex.specErrs) > 0 {
+		// the contract no longer type-checks against the function (a variable it names
+		// vanished, a callee lost its contract, ...): that is a failed obligation of its own
+		ob := &Obligation{Prop: prop, Func: c.Func, Name: obName(c) + "/contract:applies-to-the-code", Kind: "contract", Pos: ex.pos(bodyPos), Result: "engine",
+			Text: "every clause of the contract can be evaluated against the current code; failed: " + strings.Join(dedupe(ex.specErrs), " | ")}
+		ob.Script = "(check-sat)\n"
+		ex.obs = append(ex.obs, ob)
+		ex.specErrs = nil
+	}
 	rep.Obligations = ex.obs
 	rep.Notes = mapKeys(ex.notes)
 	rep.Assumptions = mapKeys(ex.assumptions)
@@ -867,6 +876,21 @@ func (eng *Engine) verify(c *Contract, prop string) (rep *FuncReport, err error)
 	rep.SpecErrs = ex.specErrs
 	rep.Unsupported = ex.unsupported
 	return rep, nil
+}
+
+func dedupe(xs []string) []string {
+	seen := map[string]bool{}
+	var out []string
+	for _, x := range xs {
+		if !seen[x] {
+			seen[x] = true
+			out = append(out, x)
+		}
+	}
+	if len(out) > 6 {
+		out = append(out[:6], fmt.Sprintf("... and %d more", len(out)-6))
+	}
+	return out
 }
 
 func obName(c *Contract) string {
